@@ -22,6 +22,7 @@ Record tobs := mk_obs {
   o_live : list (nat * Z);       (* live kitty widgets after the step *)
   o_free : list Z;               (* _ti_free_z_indexes *)
   o_next : Z;                    (* _ti_next_z_index *)
+  o_cls : list (Z * list Z);     (* (_ti_next_z_index, _ti_free_z_indexes) as seen from each class of the widget tree *)
   o_cdis : nat;
   o_wdis : list (nat * nat);
   o_cviews : list view
@@ -32,7 +33,8 @@ Inductive tact :=
 | XClear (out : list stok)
 | XStart (out : list stok)
 | XStop (out : list stok)
-| XNew (kitty : bool) (z : option Z)     (* a widget constructed; [None]: the constructor raised *)
+| XNew (wid : nat) (kitty : bool) (z : option Z)   (* a widget (of any class of the tree) constructed;
+                                                       [None]: the constructor raised *)
 | XDel.
 
 Record tstep := mk_step { ts_act : tact; ts_obs : tobs }.
@@ -123,17 +125,34 @@ Definition alloc_obs (res : option Z) (s : alloc_st) : option alloc_st :=
 Definition resync (st : tstate) (o : tobs) (term : pterm) (canv : option nat) : tstate :=
   mk_tstate (mk_scr (o_cviews o) (o_cdis o) (o_wdis o) canv) term (mk_alloc (o_next o) (o_free o)) (o_live o).
 
-(** (model reason, spec reason); 0 = fine *)
+Definition live_eqb (a b : nat * Z) : bool := Nat.eqb (fst a) (fst b) && Z.eqb (snd a) (snd b).
+Definition live_same (a b : list (nat * Z)) : bool :=
+  forallb (fun x => existsb (live_eqb x) b) a && forallb (fun x => existsb (live_eqb x) a) b.
+
+(** (model reason, spec reason); 0 = fine.
+    The model has ONE allocator for the whole class tree of UrwidImage (the code addresses
+    it through [__class__]): whatever the class of the widget constructed, the observed
+    index must be what that single allocator gives, every class must see the same counter
+    and free set, and the live widgets with their indexes must be the model's.
+    Specification on the observation alone: the z-indexes of ALL live kitty widgets,
+    whatever their classes, are pairwise distinct, non-zero and in range, and only live
+    widgets' indexes are freed. *)
 Definition judge_alloc (st : tstate) (a : tact) (o : tobs) : nat * nat :=
   let al0 := fold_left (fun s e => release (snd e) s) (o_freed o) (m_alloc st) in
-  let freed_live := forallb (fun e => existsb (fun l => Nat.eqb (fst l) (fst e) && Z.eqb (snd l) (snd e)) (m_live st))
-                            (o_freed o) in
+  let freed_live := forallb (fun e => existsb (live_eqb e) (m_live st)) (o_freed o) in
+  let live0 := filter (fun l => negb (existsb (live_eqb l) (o_freed o))) (m_live st) in
   let al1 := match a with
-             | XNew true res => alloc_obs res al0
+             | XNew _ true res => alloc_obs res al0
              | _ => Some al0
              end in
+  let live1 := match a with
+               | XNew w true (Some z) => (w, z) :: live0
+               | _ => live0
+               end in
   let model_ok := match al1 with
                   | Some s => Z.eqb (a_next s) (o_next o) && zs_same (a_free s) (o_free o)
+                              && forallb (fun c => Z.eqb (fst c) (o_next o) && zs_same (snd c) (o_free o)) (o_cls o)
+                              && live_same live1 (o_live o)
                   | None => false
                   end in
   let zs := map snd (o_live o) in
@@ -191,7 +210,7 @@ Definition judge_screen (c : tcase) (st : tstate) (a : tact) (o : tobs) : nat * 
       else 0 in
     let spec := if tc_ksup c && negb (match t_plcs term' with [] => true | _ => false end) then 7 else 0 in
     (model, spec, term', s_canv s)
-  | XNew _ _ | XDel =>
+  | XNew _ _ _ | XDel =>
     let model :=
       if negb (Nat.eqb (s_cdis s) (o_cdis o)) then 6
       else if negb (views_same (s_prev s) (o_cviews o)) then 5
